@@ -149,6 +149,7 @@ fn run_c05(out: &mut Out, tier: &str, rng: &mut Rng) {
 fn run_c09(out: &mut Out, tier: &str, rng: &mut Rng) {
     c09::run(out, tier, rng);
     c09::run_runtime(out, tier, rng);
+    c16::daemon_c09(out, tier);
     out.rule.push_str("; every history runs under the real Runtime (Director scheduled with schedule_io_sub_service, signals through the runtime's channel, commands taken behind the real command task); signal groups incl. groups of 17..40 that overrun the director's receiver");
 }
 
